@@ -19,7 +19,8 @@ RULE = ('Linear regime: valid chains (no self-locking mating), constant load (be
         'constant duty cycle outside the dead zone (the motor\'s preset duty cycle, a ConstantPWM rule covering the whole '
         'horizon, or a motor without current data; D of either sign), no stop condition. Rate constant k = E R^2 '
         'Tmax(D) / (D w0 J_eq) recomputed from the case; horizon 3..6 / k; FOUR simulations per case with steps dt0 / 2^j, '
-        'j = 0..3, k dt0 <= 0.2, dt in random units. Oracle: w(t) = w_inf + (w(0) - w_inf) exp(-k t), theta(t) = theta0 '
+        'j = 0..3, k dt0 <= 0.2, dt in random units; in a third of the cases each simulation is a run plus a continued '
+        'run whose dt and T are written in another time unit. Oracle: w(t) = w_inf + (w(0) - w_inf) exp(-k t), theta(t) = theta0 '
         '+ w_inf t + (w(0) - w_inf)(1 - exp(-k t)) / k. Checked at EVERY instant of every run: |w_sim - w| <= 0.5 (k dt) '
         '|w(0) - w_inf| and |theta_sim - theta| <= (k dt) |w(0) - w_inf| / k (1 + k t); at the common time t* ~ 1/k '
         'the error ratio err(dt_j) / err(dt_j+1) must lie in [1.6, 2.5] whenever the finer error is above 1e6 eps of the '
@@ -57,8 +58,16 @@ def check(case) -> Result:
         dt_si = dt0 / 2 ** j
         n = n0 * 2 ** j
         dt = G.qty('TimeInterval', dt_si, unit)
-        run = {'op': 'run', 'dt': dt, 'T': [dt[0] * n, unit], 'control': case['duty']['how'] == 'rule'}
-        c = dict(case, history=[run])
+        ctl = case['duty']['how'] == 'rule'
+        sp = case.get('split')
+        if sp:
+            n1 = max(1, min(n - 1, int(n * sp['frac'])))
+            dt2 = G.qty('TimeInterval', dt_si, sp['unit2'])
+            hist = [{'op': 'run', 'dt': dt, 'T': [dt[0] * n1, unit], 'control': ctl},
+                    {'op': 'run', 'dt': dt2, 'T': [dt2[0] * (n - n1), sp['unit2']], 'control': ctl}]
+        else:
+            hist = [{'op': 'run', 'dt': dt, 'T': [dt[0] * n, unit], 'control': ctl}]
+        c = dict(case, history=hist)
         if case['duty']['how'] == 'rule':
             c['control'] = [{'rule': 'constant', 'start': [0, 'sec'],
                              'duration': G.qty('TimeInterval', dt_si * n * 2, 'sec'), 'value': case['duty']['value']}]
@@ -88,7 +97,7 @@ def check(case) -> Result:
         th_ref = th0 + w_inf * t + dw * (1 - ex) / k
         kdt = k * dt_si
         scale_w = abs(dw) + 1e-12 * (abs(w0) + abs(w_inf))
-        bound_w = 0.5 * kdt * scale_w + 1e-9 * (abs(w0) + abs(w_inf))
+        bound_w = 0.5 * kdt * scale_w + 1e-9 * (abs(w0) + abs(w_inf) + mdl.noload_out)
         bad = np.nonzero(np.abs(w - w_ref) > bound_w)[0]
         if len(bad):
             i = int(bad[0])
@@ -96,7 +105,7 @@ def check(case) -> Result:
                     f'run j={j} (k dt = {kdt:.4g}): instant {i} t={t[i]!r}: speed {w[i]!r}, closed form {w_ref[i]!r}, '
                     f'|error| {abs(w[i] - w_ref[i])!r} > bound {bound_w!r} (k={k!r}, w_inf={w_inf!r}, w(0)={w0!r})')
             break
-        bound_th = kdt * scale_w / k * (1 + k * t) + 1e-9 * (np.abs(th_ref) + abs(th0)) + 1e-300
+        bound_th = kdt * scale_w / k * (1 + k * t) + 1e-9 * (np.abs(th_ref) + abs(th0) + mdl.noload_out / k) + 1e-300
         bad = np.nonzero(np.abs(th - th_ref) > bound_th)[0]
         if len(bad):
             i = int(bad[0])
@@ -115,8 +124,8 @@ def check(case) -> Result:
     usable = 0
     if len(errs_w) == 4 and not res.violations:
         eps = 2.0 ** -52
-        for name, errs, sc in (('speed', errs_w, abs(w0) + abs(w_inf)),
-                               ('position', errs_th, abs(th0) + abs(w_inf) / k + abs(dw) / k)):
+        for name, errs, sc in (('speed', errs_w, abs(w0) + abs(w_inf) + mdl.noload_out),
+                               ('position', errs_th, abs(th0) + abs(w_inf) / k + abs(dw) / k + mdl.noload_out / k)):
             for j in range(3):
                 if errs[j + 1] > 1e6 * eps * sc:
                     usable += 1
@@ -128,7 +137,7 @@ def check(case) -> Result:
                         break
     res.nontrivial = abs(dw) > 0.01 * mdl.noload_out and usable >= 2
     res.hist['usable-ratios'] = usable
-    res.classes += (f'duty:{case["duty"]["how"]}', 'negative-D' if D < 0 else 'positive-D',
+    res.classes += (f'duty:{case["duty"]["how"]}', 'continued-run' if case.get('split') else 'single-run', 'negative-D' if D < 0 else 'positive-D',
                     'above-stall' if abs(Tl) > abs(mdl.E * mdl.R * TmaxD) else 'below-stall',
                     'worm' if any(e['type'] == 'worm' for e in mdl.elements) else 'no-worm')
     return res
@@ -160,6 +169,9 @@ def s_case(draw, max_len=5):
     case['n0'] = max(4, int(draw(st.floats(3, 6)) / case['kdt0']))
     case['dt_unit'] = draw(G.s_unit('TimeInterval'))
     case['history'] = []
+    if draw(st.integers(0, 2)) == 0:
+        # the same trajectory reached through a continued run, the continuation written in another time unit
+        case['split'] = {'frac': draw(st.floats(0.1, 0.9)), 'unit2': draw(G.s_unit('TimeInterval'))}
     return case
 
 
